@@ -532,7 +532,10 @@ def profile_cli19(rnd, n, thorough, out):
             r, tags, ju, evs, cause, oracle = cli_run_set(cwd, files, kinds, jobs, False, False, rnd, sigint_at=k, latency=lat)
             tag = f"cli19 set={si} jobs={jobs} sigint_at={k}/{nreq}"
             sig = any(e["ev"] == "sigint" for e in r.events)
-            if oracle is None and sig and r.exit == 0:
+            # (k = nreq is the very last request of the run, the final DROP DATABASE or the last record:
+            # once its reply is in the run is over, and whether the signal is noticed before the exit
+            # status is computed is a race the property cannot mean — seen once in 1405 thorough runs)
+            if oracle is None and sig and r.exit == 0 and k < nreq:
                 oracle = "exit status 0 although the run was interrupted by Ctrl-C"
             if oracle is None and ju is None:
                 oracle = "no JUnit report was written after Ctrl-C"
